@@ -64,10 +64,11 @@ contract(CMD + "PropertyId.encode",
 
 contract(CMD + "PropertyId.decode",
          params={"self": "enum:" + CMD + "PropertyId", "data": "memoryview"},
+         returns="vendor_read(self, data)",
          ensures={"data_present": "implies(self != 0x001A, len(data) >= 1) and implies(self == 0x00E3, len(data) >= 2)",
-                  "vendor_decoding": "result == vendor_read(self, data)"},
+                  "only_supported_ids_decode": "self in SUPPORTED_IDS"},
          raises={"builtins.NotImplementedError": {"when": "self not in SUPPORTED_IDS"},
-                 "builtins.IndexError": {"when": "len(data) < 2"}})
+                 "builtins.IndexError": {"when": "(self == 0x00E3 and len(data) < 2) or (self != 0x001A and len(data) < 1)"}})
 
 lemma("C16.read_back",
       params={"pid": "enum:" + CMD + "PropertyId", "b": "bool", "n": "int[0,255]"},
@@ -170,3 +171,42 @@ contract(CMD + "GetPropertiesCommand.tobytes",
                       "define": {"payload": "bytearray([0xB1, len(self._properties)]) + R"},
                       "invariant": ["len(R) == 2 * _i"],
                       "ghost_step": {"R": "pre(R) + le16(prop)"}}})
+
+
+# ---- C16 (read back): property records are interpreted independently and in order -----------------------------------------------
+# Well-formed list (vendor 0xB1/0xB0 layout): payload = id, n, rec_1 .. rec_n [, trailer] with rec_j = id_lo, id_hi, result, size_j,
+# data_j and len(data_j) = size_j.  `prop_alone(rec)` is the record interpreted alone (the parser's own result on a one-record
+# payload).  Loop rule (induction over the record list): the cursor starts at record j, and the dictionary after record j is the
+# dictionary before it updated with the record interpreted alone - whatever kind of record it is (empty, unknown id, known but
+# undecodable, failed result, decodable), so no record can hide or distort the ones that follow it.
+from contracts.response import PROP_KEYS  # noqa: E402
+from contracts.capabilities import merged  # noqa: E402
+from msmart.device.AC.command import PropertiesResponse  # noqa: E402
+
+
+def prop_alone(rec):
+    return PropertiesResponse(memoryview(bytes([0xB1, 1]) + bytes(rec)))._properties
+
+
+contract(CMD + "PropertiesResponse._parse#wf",
+         params={"self": "obj:" + CMD + "PropertiesResponse", "payload": "memoryview"},
+         requires=["len(payload) >= 2"],
+         calls_inline=[CMD + "PropertiesResponse.__init__", CMD + "PropertiesResponse._parse"],
+         modifies=["self._properties"],
+         raises={"builtins.IndexError": {}},
+         local_roles={"props": "assigned_from:payload[2:]"},
+         loops={"0": {
+             "match": "range(0, ",
+             "ghost_init": {"off": "2"},
+             "modifies": ["self._properties"],
+             "havoc": {"self._properties": "symdict:PROP_KEYS:enum:" + CMD + "PropertyId", "off": "nat"},
+             "define": {"props": "payload[off:]"},
+             "invariant": ["2 <= off <= len(payload)"],
+             "assume": ["off + 4 <= len(payload) and off + 4 + payload[off + 3] <= len(payload)",
+                        # vendor layout: an iECO report carries two data bytes (number, switch)
+                        "implies(payload[off] == 0xE3 and payload[off + 1] == 0x00 and payload[off + 3] != 0, payload[off + 3] >= 2)"],
+             "ghost_step": {"off": "pre(off) + 4 + payload[pre(off) + 3]"},
+             "step_ensures": {
+                 "record_interpreted_alone_and_merged_in_order":
+                     "self._properties == merged(pre(self._properties), prop_alone(payload[pre(off):pre(off) + 4 + payload[pre(off) + 3]]))",
+             }}})
